@@ -133,6 +133,19 @@ func SemanticOps(root interface{}, nd Node, ctx *Ctx) map[string]interface{} {
 		mid[len(v)/2] ^= 0x10
 		ops["int-flip-mid"] = mid
 		ops["int-fresh"] = fresh(ctx.Seed+nd.Path, len(v))
+	case big.Int:
+		ops["bigint-plus1"] = *new(big.Int).Add(&v, big.NewInt(1))
+		ops["bigint-negate"] = *new(big.Int).Neg(&v)
+		if v.Sign() != 0 {
+			ops["bigint-zero"] = *big.NewInt(0)
+		}
+		if ctx != nil && ctx.Other != nil {
+			if o, ok := Get(ctx.Other, nd.Path); ok {
+				if ob, ok := o.(big.Int); ok && ob.Cmp(&v) != 0 {
+					ops["other-party"] = ob
+				}
+			}
+		}
 	case uint64:
 		ops["uint-plus1"] = v + 1
 		if v != 0 {
